@@ -108,10 +108,16 @@ impl World for AgentWorld {
         };
         let rec = block_on_sim(sc.knobs.tokio_seed, run::run_scenario(&sc, keep_log));
         let log = build_log(&rec, keep_log);
+        let mut lines = log.lines().to_vec();
+        if !rec.log.lines().is_empty() {
+            // Poll trace requested (diagnostics only; not part of the history hash).
+            lines.extend(rec.log.lines().iter().cloned());
+            lines.sort_by_key(|l| l.trim_start().split(' ').next().and_then(|n| n.parse::<u64>().ok()).unwrap_or(0));
+        }
         let mut out = Outcome {
             violations: oracle::check(&rec),
             log_hash: log.hash(),
-            log_lines: log.lines().to_vec(),
+            log_lines: lines,
             steps: rec.steps,
             decisions: rec.decisions,
             sim_time_ms: rec.sim_ms,
